@@ -108,7 +108,7 @@ func CorruptJSON(t *rapid.T, text []byte, n int, protect map[string]bool) ([]byt
 			break
 		}
 		p := paths[rapid.IntRange(0, len(paths)-1).Draw(t, "node")]
-		kind := rapid.IntRange(0, 8).Draw(t, "corruption")
+		kind := rapid.IntRange(0, 9).Draw(t, "corruption")
 		switch {
 		case kind <= 2:
 			h := rapid.SampledFrom(hostileNodes).Draw(t, "hostile")
@@ -162,6 +162,24 @@ func CorruptJSON(t *rapid.T, text []byte, n int, protect map[string]bool) ([]byt
 				return []interface{}{x}, false
 			})
 			desc = append(desc, "dup/swap")
+		case kind == 9:
+			// an operation becomes another kind of operation and keeps its members: members
+			// the new kind requires are missing, members of a sibling kind are present
+			var opNodes []jsonPath
+			for _, q := range paths {
+				if len(q) > 0 && q[len(q)-1] == "op" {
+					if _, ok := nodeAt(tree, q).(string); ok {
+						opNodes = append(opNodes, q)
+					}
+				}
+			}
+			if len(opNodes) == 0 {
+				continue
+			}
+			q := opNodes[rapid.IntRange(0, len(opNodes)-1).Draw(t, "opnode")]
+			name := rapid.SampledFrom([]string{"insert", "select", "update", "mutate", "delete", "wait", "commit", "abort", "comment", "assert"}).Draw(t, "opname")
+			tree, _ = rewrite(tree, q, func(x interface{}) (interface{}, bool) { return name, false })
+			desc = append(desc, "op-becomes:"+name)
 		case kind >= 7:
 			// a number becomes a degenerate number of the other kind: fractions that
 			// truncate to zero, negative zero, values beyond int64
